@@ -6,6 +6,7 @@ import (
 	"fmt"
 
 	"github.com/hslam/rpc"
+	vs "verif/shim/vsync"
 )
 
 // C07 — wire headers round-trip losslessly and keep their documented format.
@@ -668,4 +669,54 @@ func c07ReusedObjects(x *X) {
 
 func init() {
 	register(&Scenario{Prop: "C07", Name: "c07/reused-header-objects", Quick: []Bound{{0, 0}}, Thorough: []Bound{{0, 0}}, Body: c07ReusedObjects, MinHB: 1})
+}
+
+// the application has re-registered one of the built-in codec names ("json", "pb", "code") in the public
+// registry of BODY codecs (legal: RegisterCodec is how a faster JSON library or an own message format is
+// plugged in under Options.Codec).  The wire header of the header encoder of the same name is still the
+// documented format, byte for byte, and a call through a connection that uses that header encoder works.
+type appOnlyCodec struct{}
+
+func (appOnlyCodec) Marshal(buf []byte, v interface{}) ([]byte, error) {
+	if p, ok := v.(*[]byte); ok {
+		return append([]byte("APP:"), *p...), nil
+	}
+	return nil, fmt.Errorf("not an application message")
+}
+func (appOnlyCodec) Unmarshal(data []byte, v interface{}) error {
+	if p, ok := v.(*[]byte); ok && len(data) >= 4 {
+		*p = data[4:]
+		return nil
+	}
+	return fmt.Errorf("not an application message")
+}
+
+func c07Reregistered(x *X) {
+	name := []string{"json", "pb", "code"}[x.Choose(3)]
+	kind := x.Choose(2)
+	orig := rpc.NewCodec(name)
+	rpc.RegisterCodec(name, func() rpc.Codec { return appOnlyCodec{} })
+	defer rpc.RegisterCodec(name, orig)
+	prev := bytes.Repeat([]byte{0xAB}, 4000)
+	for si, seq := range []uint64{0, 1, 300, 1 << 40} {
+		for _, tl := range []int{0, 9, 300} {
+			for _, bl := range []int{0, 20, 700} {
+				h := hdrCase{kind: kind, seq: seq, up: nil, text: c07Text(tl, name, byte(si)), body: c07Body(bl, byte(si))}
+				c07Check(x, name, h, 0, prev)
+			}
+		}
+	}
+	f := newFixture(srvOpts{bufSize: 64, enc: name}, cliOpts{bufSize: 64})
+	c := newUcall(0x31, 0, 24, formCall)
+	c.issue(f.conn)
+	if c.err != nil || !eqBytes(c.reply, c.want()) {
+		x.Fail("C07/call-fails-with-reregistered-codec-name", "the body codec name %q was re-registered by the application; a call over a connection with the header encoder %q (bytes body codec) returned %v", name, name, c.err)
+	}
+	x.Outcome("%s kind=%d", name, kind)
+	f.conn.Close()
+	vs.Quiesce()
+}
+
+func init() {
+	register(&Scenario{Prop: "C07", Name: "c07/builtin-codec-name-reregistered", Quick: []Bound{{0, 0}}, Thorough: []Bound{{0, 0}}, Body: c07Reregistered, MinHB: 1})
 }
